@@ -1,4 +1,4 @@
-add("C02", "checks/c02_dispatch.c", ["default-asan", "default-plain", "noinfo-plain", "c89-plain", "mcu-plain"], ["default-asan", "default-plain", "noinfo-asan", "noinfo-plain", "c89-plain", "uchar-plain", "mcu-plain", "mcu89-plain", "ndebug-plain"],
+add("C02", "checks/c02_dispatch.c", ["default-asan", "default-plain", "noinfo-plain", "c89-plain", "mcu-plain", "heap-plain"], ["default-asan", "default-plain", "noinfo-asan", "noinfo-plain", "c89-plain", "uchar-plain", "mcu-plain", "mcu89-plain", "ndebug-plain", "heap-plain"],
     "cases = (random command table of 6..14 entries from the pattern grammar with shared root keywords, optional keywords, numeric "
     "suffixes, queries and common commands, deliberately overlapping; program message of 1..6 units whose headers are spellings/near "
     "misses of table patterns, written absolute, relative to the previous unit's path, after undefined and after common units); the "
